@@ -237,7 +237,10 @@ def run_histories(hs, inputs, timeout=3000, mem_kb=6000000):
         if len(got) >= len(rest):
             rest = []
             break
-        DIED.append({"history": self_contained(rest[len(got)], inputs), "exit": rc, "stderr": err[-200:]})
+        why = "timeout" if rc == 124 else next((l.strip() for l in err.splitlines() if l.startswith("fatal error") or l.startswith("runtime:")), "killed")
+        if "out of memory" in why:
+            why = "out of memory (ulimit -v %d kB)" % mem_kb
+        DIED.append({"history": self_contained(rest[len(got)], inputs), "exit": rc, "why": why[:80]})
         rest = rest[len(got) + 1:]
     return _P(0 if not rest else rc, err), outs
 
